@@ -39,6 +39,53 @@ class Term(str):
         return Term(f"{str(self)}+{other}")
 
 
+class MutTerm:
+    """A mutable container as a node value (like a NumPy array): modified in place and assigned again."""
+
+    def __init__(self, s):
+        self.s = s
+
+    def set(self, s):
+        self.s = s
+
+    def __str__(self):
+        return self.s
+
+
+def inplace_traces():
+    """Value nodes that hold a mutable container: the container is modified in place and the *same object* is assigned
+    again (directly and through the variable); the assignment must flag and - with auto-update on - recompute like any
+    other.  (No state is saved in these traces: a saved state would share the container.)"""
+    out = []
+    for auto in (True, False):
+        plan = [{"kind": "v", "inp": [], "wrapped": True}, {"kind": "p", "inp": [1]}, {"kind": "v", "inp": []},
+                {"kind": "c", "inp": [2, 3]}, {"kind": "t", "inp": [4]}, {"kind": "c", "inp": [5]}]
+        run = GraphRun(plan)
+        for i in (1, 3):
+            run.model.nodes[run._name(i)].value = MutTerm(f"m{i}")
+        run.model.update()
+        run.calls.clear()
+        hdr = run.header()
+        ev = [run.op({"ev": "set_auto", "b": auto})]
+        for step, (i, via_var) in enumerate(((1, False), (3, False), (1, True), (3, False))):
+            buf = run.vars[i].value if via_var else run.model.nodes[run._name(i)].value
+            buf.set(f"q{step}")
+            if via_var:
+                run.vars[i].value = buf
+            else:
+                run.model.nodes[run._name(i)].value = buf
+            e = {"ev": "assign", "n": i, "x": f"q{step}", "via_var": via_var, "raised": False, "inplace": True}
+            e.update(run.snapshot())
+            ev.append(e)
+            if not auto and step % 2 == 1:
+                ev.append(run.op({"ev": "update_all"}))
+        ev.append(run.op({"ev": "update_all"}))
+        run.close()
+        hdr["ops"] = []
+        out.append({"hdr": hdr, "ev": ev})
+    return out
+
+
 def gen_plan(rng, nmax=8, seeded_ok=False):
     """Random DAG in topological order.  Node kinds in the plan:
     v  value, c Calc, t TransientCalc, p proxy (VarValue of a Var), d Dist, e TransientDist.
@@ -78,6 +125,15 @@ def gen_plan(rng, nmax=8, seeded_ok=False):
                 plan.append({"kind": "p", "inp": [len(plan)]})
             else:
                 plan.append({"kind": kind, "inp": ins})
+    # now and then a variable carries the *name of an unrelated node* (the two namespaces are separate; names given
+    # to update() and position keys mean the node first)
+    wrapped = [i + 1 for i, p in enumerate(plan) if p.get("wrapped")]
+    others = [i + 1 for i, p in enumerate(plan) if p["kind"] in ("c", "t", "d", "e") and not p.get("wrapped")]
+    if wrapped and others and rng.random() < 0.25:
+        w = rng.choice(wrapped)
+        cand = [o for o in others if o not in (w, w + 1)]
+        if cand:
+            plan[w - 1]["var_name"] = f"n{rng.choice(cand)}"
     return plan
 
 
@@ -121,7 +177,7 @@ class GraphRun:
             if p["kind"] == "v":
                 init[i] = Term(atoms[i % len(atoms)])
                 if p.get("wrapped"):
-                    var = lsl.Var(init[i], name=f"var{i}")
+                    var = lsl.Var(init[i], name=p.get("var_name", f"var{i}"))
                     var.value_node.name = name
                     self.vars[i] = var
                     self.nodes[i] = var.value_node
@@ -131,7 +187,7 @@ class GraphRun:
                 src = p["inp"][0]
                 var = self.vars.get(src)
                 if var is None:  # weak var around a Calc
-                    var = lsl.Var(self.nodes[src], name=f"var{src}")
+                    var = lsl.Var(self.nodes[src], name=self.plan[src - 1].get("var_name", f"var{src}"))
                     self.vars[src] = var
                 var.var_value_node.name = name
                 self.nodes[i] = var.var_value_node
@@ -330,7 +386,7 @@ def _reload(self):
     for i in list(self.nodes):
         self.nodes[i] = self.model.nodes[self._name(i)] if self._name(i) in self.model.nodes else self.nodes[i]
     for i in list(self.vars):
-        self.vars[i] = self.model.vars[f"var{i}"]
+        self.vars[i] = self.model.vars[self.plan[i - 1].get("var_name", f"var{i}")]
 
 
 GraphRun.reload = _reload
